@@ -13,6 +13,7 @@ from vf.refmodel import HEX_EDGES, HEX_SIDES, hex_corner_jacobians, hex_rotation
 
 warnings.simplefilter("ignore")
 
+import classy_blocks as cb  # noqa: E402
 from classy_blocks.optimize.grid import HexGrid, QuadGrid  # noqa: E402
 
 RULE = (
@@ -41,6 +42,8 @@ ASSUMPTIONS = [
     "tol = rounding tol + 2*(B1 + B2); asserted only when shortest edge * scale >= 1 at both scales ('well above the "
     "guard'), otherwise the case is only counted",
     "stretch: q(box) >= q(cube) - (rounding tol + 2*B(cube)); the three stretched boxes agree within the rounding tol",
+    "mesh-far: translation through the public blocking path; tolerance 1e-5 n + 2e-12 (1 + distance/l_min) (|q| + 100 n); "
+    "the distance is capped at 5e7 so that the spacing of doubles stays an order below the library's TOL = 1e-7",
     "an exception from quality() on a valid convex cell is a violation (the value is then not 'unchanged')",
     "live cells: moves are at most 0.15 of the smallest nominal edge per coordinate, always from the original place; a "
     "step after which a corner Jacobian drops below 0.2 (quad corner sine < 0.35) ends the case unjudged; links are "
@@ -140,6 +143,17 @@ def rigid_case(draw, dim: int):
 def scale_case(draw, dim: int):
     case = draw(assembly(dim))
     case["scale"] = 10.0 ** draw(st.floats(-1.0, 2.0))
+    return case
+
+
+FAR_DIRS = [[0.6, -0.5, 0.6245], [-0.48, 0.64, 0.6], [0.7071, 0.7071, 0.0], [0.2, 0.3, -0.9327], [1.0, 0.0, 0.0]]
+
+
+@st.composite
+def mesh_far_case(draw):
+    """the assembly as a user blocking (Loft per cell -> Mesh.assemble -> HexGrid.from_mesh), near the origin and far away"""
+    case = draw(assembly(3))
+    case["far"] = {"ratio": draw(st.sampled_from([1e3, 1e5, 1e6])), "dir": draw(st.integers(0, len(FAR_DIRS) - 1))}
     return case
 
 
@@ -417,6 +431,50 @@ def check_scale(case, ctx: Ctx) -> None:
     ctx.nt(abs(math.log(s)) > 0.05)
 
 
+def mesh_grid_quality(points, addr, facts):
+    """quality through the public blocking path; cells come in the order of the operations"""
+    try:
+        mesh = cb.Mesh()
+        for a in addr:
+            mesh.add(cb.Loft(cb.Face(points[a[:4]]), cb.Face(points[a[4:]])))
+        mesh.assemble()
+        grid = HexGrid.from_mesh(mesh)
+        each = [float(c.quality) for c in grid.cells]
+        total = float(grid.quality)
+    except Exception as ex:
+        raise Violation("quality-raises", f"Mesh -> HexGrid.from_mesh -> quality raised {type(ex).__name__}: {ex}",
+                        **facts) from None
+    if len(each) != len(addr) or not all(math.isfinite(x) for x in [total, *each]):
+        raise Violation("quality-not-finite", f"quality {total} / {each} for {len(addr)} blocks", **facts)
+    return total, each
+
+
+def check_mesh_far(case, ctx: Ctx) -> None:
+    points, addr = build(case)
+    a1 = renumbered(addr, case["rots"], 3)
+    l_min, _, _ = shape_numbers(points, addr, 3)
+    # placed `ratio` smallest edges away, but never beyond 5e7 (doubles are 7.5e-9 apart there, an order below the
+    # library's absolute TOL = 1e-7 for merging vertices)
+    distance = min(case["far"]["ratio"] * min(case["size"]), 5e7)
+    shift = distance * np.array(FAR_DIRS[case["far"]["dir"]])
+    facts = common_facts(case, points, addr)
+    facts.update(distance=distance, distance_in_edges=distance / l_min)
+    q1, e1 = mesh_grid_quality(points, a1, {**facts, "where": "near"})
+    q2, e2 = mesh_grid_quality(points + shift, a1, {**facts, "where": "far"})
+    q0, e0 = evaluate(points, a1, 3, facts)  # the same cells as a bare grid
+    n = len(addr)
+    reach = float(distance + np.abs(points).max()) / l_min
+    qm = max(abs(q1), abs(q2))
+    # a coordinate rounding of 2.2e-16 * reach (relative to an edge) turns directions by that much; 100 x the first-order
+    # effect on the sum (0.08 q per degree) and on the 24 n near-zero angles
+    tol = 1e-5 * n + 2e-12 * (1 + reach) * (qm + 100 * n)
+    compare("translation-changes-quality", q1, e1, q2, e2, tol, facts, ctx)
+    compare("mesh-grid-differs-from-bare-grid", q1, e1, q0, e0, tol_round(qm, n, float(np.abs(points).max()) / l_min), facts, ctx)
+    _labels(case, ctx, points, addr)
+    ctx.label(f"far-ratio={case['far']['ratio']:g}" + ("(capped at 5e7)" if distance == 5e7 else ""))
+    ctx.nt(distance / l_min >= 1e4)
+
+
 def _cells_valid(points, addr, dim) -> bool:
     if dim == 3:
         return all(hex_corner_jacobians(points[a]).min() >= 0.2 for a in addr)
@@ -560,6 +618,9 @@ CELLS = [
     Cell("C14/hex/stretch", stretch_case(), check_stretch, 500, 20000,
          "cube x k along each geometric direction: never lower than the cube, equal for the three directions",
          fixed_cases=_STRETCH_FIXED),
+    Cell("C14/hex/mesh-far", mesh_far_case(), check_mesh_far, 250, 10000,
+         "the assembly as Lofts -> Mesh.assemble() -> HexGrid.from_mesh(), near the origin and 1e3..1e6 smallest edges away "
+         "(at most 5e7): same grid and per-cell quality; also equal to the bare grid on the same points"),
     Cell("C14/hex/live", live_case(3), check_live, 300, 12000,
          "2-4 hexahedra, 0-2 Translation/Symmetry links, quality evaluated, then 1-3 grid.update() moves: live values = "
          "fresh grid on the same coordinates = rigidly moved fresh grid"),
